@@ -170,7 +170,9 @@ func c20Scenario(name string, p, t int) vr.Scenario {
 
 // c20TwoCalls: two sequential calls in one execution share the timer pool: the
 // first one is chosen so that its threshold timer fires without being read.
-func c20TwoCalls(name string, p int) vr.Scenario {
+func c20TwoCalls(name string, p int) vr.Scenario { return c20TwoCallsX(name, p, false) }
+
+func c20TwoCallsX(name string, p int, abandoned bool) vr.Scenario {
 	var a, b *c20sys
 	body := func() {
 		a, b = &c20sys{}, &c20sys{}
@@ -178,8 +180,18 @@ func c20TwoCalls(name string, p int) vr.Scenario {
 		a.pd, a.po = vs.Choose(3), []int{oAnswer, oError}[vs.Choose(2)]
 		a.sd, a.so = []int{0, 2}[vs.Choose(2)], oAnswer
 		a.standby = vs.Choose(2) == 1
+		if abandoned {
+			// the first caller gives up early (deadline 300 ms / cancelled at once) while its slow
+			// primary is still running; the second call starts while goroutines of the first are around
+			a.pd, a.po = len(c20Durs)-2, oAnswer
+			a.cmode = []int{1, 4}[vs.Choose(2)]
+		}
 		c20Call(a)
-		vs.Sleep(10 * time.Second) // every goroutine of the first call is done, its timer is back in the pool
+		if abandoned {
+			vs.Sleep(time.Millisecond)
+		} else {
+			vs.Sleep(10 * time.Second) // every goroutine of the first call is done, its timer is back in the pool
+		}
 		b.pd, b.po = []int{1, 2}[vs.Choose(2)], oAnswer
 		b.sd, b.so = vs.Choose(2), oAnswer
 		b.standby = vs.Choose(2) == 1
@@ -188,7 +200,7 @@ func c20TwoCalls(name string, p int) vr.Scenario {
 	check := func(x *vs.Exec) (string, *vs.Violation) {
 		k1, v := c20Judge(a, x)
 		if v != nil {
-			v.Sig = strings.Replace(v.Sig, "fallback/", "fallback-2calls/first/", 1)
+			v.Sig = strings.Replace(v.Sig, "fallback/", name+"/first/", 1)
 			return k1, v
 		}
 		if !a.returned {
@@ -196,7 +208,7 @@ func c20TwoCalls(name string, p int) vr.Scenario {
 		}
 		k2, v := c20Judge(b, x)
 		if v != nil {
-			v.Sig = strings.Replace(v.Sig, "fallback/", "fallback-2calls/second/", 1)
+			v.Sig = strings.Replace(v.Sig, "fallback/", name+"/second/", 1)
 			v.Desc += "\n(second call of the execution; first call: " + k1 + ")"
 		}
 		return k1 + " ; " + k2, v
@@ -405,5 +417,5 @@ func TestVerifC20(t *testing.T) {
 	if e.Tier == "thorough" {
 		p, pt, tt, p2 = 4, 1, 1, 3
 	}
-	vr.RunScenarios("C20", []vr.Scenario{c20Scenario("fallback", p, 0), c20Scenario("fallback-earlytimers", pt, tt), c20TwoCalls("fallback-2calls", p2)})
+	vr.RunScenarios("C20", []vr.Scenario{c20Scenario("fallback", p, 0), c20Scenario("fallback-earlytimers", pt, tt), c20TwoCalls("fallback-2calls", p2), c20TwoCallsX("fallback-2calls-first-abandoned", p2, true)})
 }
